@@ -311,7 +311,11 @@ def run(ctx):
     ok = bool(disk_sub) and all(dotted(s.slice.value) == ast.unparse(ml.target) for s in disk_sub)
     ctx.inst('R19.3', CFGM + ':build_config', 'disk section key = %s' % (repo.norm(disk_sub[0].slice) if disk_sub else '?'), ok,
              'a class reads the section named after itself' if ok else 'section lookup is not by class name', ml)
-    ins = [c for c in calls_in(bc, nested=False) if isinstance(c.func, ast.Attribute) and c.func.attr in ('insert', 'append') and dotted(c.func.value) == 'path']
+    # the search path: the local that holds jupyter_config_path() and is handed to _load_config_files
+    path_names = {nm for nm, ds in bdefs.items() for v, k, st_ in ds if isinstance(v, ast.Call) and last_attr(v) == 'jupyter_config_path'}
+    if not path_names:
+        raise AnalysisError('build_config: jupyter_config_path() is no longer the search path')
+    ins = [c for c in calls_in(bc, nested=False) if isinstance(c.func, ast.Attribute) and c.func.attr in ('insert', 'append') and dotted(c.func.value) in path_names]
     ok = len(ins) == 1 and ins[0].func.attr == 'insert' and const_val(ins[0].args[0]) == 0 and any(dotted(x.func) == 'os.getcwd' for x in calls_in(ins[0]))
     ctx.inst('R19.3', CFGM + ':build_config', repo.norm(ins[0]) if ins else '<cwd not added>', ok,
              'the working directory is the highest-priority location' if ok else 'the working directory does not take precedence', ins[0] if ins else bc)
@@ -335,7 +339,8 @@ def run(ctx):
                  'a directory of the search path can be skipped inside the loop: with the reversed walk a skip-if-seen keeps the LOW-priority occurrence, so e.g. '
                  'the working directory loses its precedence when it is also a jupyter config directory', loads[0])
     dl = [l for l in loops if l not in mloops and any(isinstance(c, ast.Call) and last_attr(c) == '_load_config_files' for c in ast.walk(l.iter))]
-    ok = len(dl) == 1 and any(('func', CFGM + ':recursive_update') in cg.resolve(c.func, bc) and dotted(c.args[0]) == 'disk_config' for c in calls_in(dl[0]))
+    acc_names = {x.value.id for x in ast.walk(bc) if isinstance(x, ast.Subscript) and isinstance(x.value, ast.Name) and isinstance(x.slice, ast.Attribute) and x.slice.attr == '__name__'}
+    ok = len(dl) == 1 and any(('func', CFGM + ':recursive_update') in cg.resolve(c.func, bc) and dotted(c.args[0]) in acc_names for c in calls_in(dl[0]))
     ctx.inst('R19.3', CFGM + ':build_config', 'disk config = recursive_update over the files in yielded order', ok,
              'later files overwrite earlier ones key by key' if ok else 'file configs are not merged by recursive_update', dl[0] if dl else bc)
     ru = repo.func(CFGM + ':recursive_update')
